@@ -397,7 +397,7 @@ func mutants(w *W, f func(ss []sym)) {
 		if !w.thorough() && name != "D0" && name != "W" && !(name == "D1" && len(texts) <= 12) {
 			return
 		}
-		if w.thorough() && (name == "D2" || name == "D3") {
+		if w.thorough() && (name == "D2" || name == "D3" || name == "DC") {
 			return
 		}
 		key := strings.Join(texts, "\x00")
